@@ -68,6 +68,11 @@ var reIdxField = regexp.MustCompile(`^(\w+)\[(\w+)\]\.(\w+)$`)
 
 // c09Less is analysis A8: enumerate the 3^k orderings of the key fields.
 func c09Less(c *core.Ctx, pkg *packages.Package, rule, rel, typ string, keys []cmpKey) {
+	c09LessWith(c, rule, rel, typ, keys, nil)
+}
+
+// c09LessWith: parse maps an operand key to (belongs to the first argument, field name).
+func c09LessWith(c *core.Ctx, rule, rel, typ string, keys []cmpKey, parse func(fn *core.Func, operand string) (bool, string, bool)) {
 	fn := c.Need(rule, rel, typ, "Less")
 	if fn == nil {
 		return
@@ -95,17 +100,27 @@ func c09Less(c *core.Ctx, pkg *packages.Package, rule, rel, typ string, keys []c
 				} else {
 					return false, false
 				}
-				ma, mb := reIdxField.FindStringSubmatch(a), reIdxField.FindStringSubmatch(b)
-				if ma == nil || mb == nil || ma[3] != mb[3] {
-					return false, false
+				var aFirst bool
+				var fieldA string
+				if parse != nil {
+					af, fa, ok1 := parse(fn, a)
+					bf, fb, ok2 := parse(fn, b)
+					if !ok1 || !ok2 || fa != fb || af == bf {
+						return false, false
+					}
+					aFirst, fieldA = af, fa
+				} else {
+					ma, mb := reIdxField.FindStringSubmatch(a), reIdxField.FindStringSubmatch(b)
+					if ma == nil || mb == nil || ma[3] != mb[3] {
+						return false, false
+					}
+					if ma[2] != pi && ma[2] != pj {
+						return false, false
+					}
+					aFirst, fieldA = ma[2] == pi, ma[3]
 				}
-				o, known := ord[ma[3]]
+				o, known := ord[fieldA]
 				if !known {
-					return false, false
-				}
-				// orientation: a is indexed by the first parameter?
-				aFirst := ma[2] == pi
-				if ma[2] != pi && ma[2] != pj {
 					return false, false
 				}
 				if swapped {
